@@ -398,7 +398,10 @@ KEY_ALPHABET = list("abcxyzABZ019") + ["_", "-", " ", ".", '"', "'", "\\", "/", 
                                         "\u2028", "\x85", "\n", "\t", "\x0c",
                                         # compatibility characters: letters / digits to `\w`, but Python normalises identifiers (NFKC) -- micro sign,
                                         # fi ligature, full-width i, superscript two, vulgar half
-                                        "\u00b5", "\ufb01", "\uff49", "\u00b2", "\u00bd"]
+                                        "\u00b5", "\ufb01", "\uff49", "\u00b2", "\u00bd",
+                                        # digits of other scripts (legal inside an identifier, not at its start), combining vowel signs (legal
+                                        # inside an identifier although not `\w`), letters of scripts without case
+                                        "\u0663", "\u0969", "\u093f", "\u093e", "\u0e34", "\u0926", "\u0e01", "\u6570"]
 
 
 def wide_key(rng):
